@@ -155,6 +155,24 @@ pub fn gen_driver(prop: &str, rng: &mut Rng, sh: &mut Shards, out: &str, thoroug
                     progs.push((Program { data: Vec::new(), items, interp: false, stdin: Vec::new(), note: "syntax-truncated".into() }, lay));
                 }
             }
+            // an undefined label reached through a macro (also a nested one) is reported at the outermost use
+            for (defs, usetext) in [
+                (vec!["macro skipto(l) -> jmp l <-"], "skipto(nowhere_X)"),
+                (vec!["macro skipto(l) -> jmp l <-", "macro outer(m) -> nop skipto(m) <-"], "outer(nowhere_Y)"),
+                (vec!["macro cond(a, b) -> jz a jnz b <-"], "cond(start, nowhere_Z)"),
+            ] {
+                for pad in 0..3 {
+                    let mut items: Vec<Item> = defs.iter().map(|d| Item::Raw(d.to_string())).collect();
+                    items.push(Item::Label("start".into()));
+                    for _ in 0..pad { items.push(Item::Ins(Ins::Ctl { op: "nop" })); }
+                    items.push(Item::Bad(Ins::Unsupported { text: usetext.to_string() }, usetext.split('(').next().unwrap().to_string()));
+                    items.push(Item::Ins(Ins::Ctl { op: "nop" }));
+                    let mut lay = Layout::random(rng);
+                    lay.vary_spelling = false;
+                    lay.label_same_line = false;
+                    progs.push((Program { data: Vec::new(), items, interp: false, stdin: Vec::new(), note: "undefined-label-in-macro".into() }, lay));
+                }
+            }
             // diagnostics must cite the offending line: a sample of the C14 mutants
             let muts = c14_programs(rng, 1);
             progs.extend(muts.into_iter().enumerate().filter(|(i, _)| i % 3 == 0).map(|(_, x)| x));
@@ -646,6 +664,14 @@ pub fn gen_repeats(rng: &mut Rng, sh: &mut Shards, out: &str, thorough: bool) {
         vec![Item::Ins(Ins::Jcc { mn: "jmp", label: "nolab_A".into(), target: 0 }), Item::Ins(Ins::Jcc { mn: "jmp", label: "nolab_B".into(), target: 0 })], // no start either
         vec![Item::Label("start".into()), Item::Ins(Ins::Unsupported { text: "into".into() }), Item::Ins(Ins::Jcc { mn: "jmp", label: "nolab_A".into(), target: 0 })],
         vec![Item::Label("start".into()), Item::Ins(Ins::Mov { w: 8, dst: Opnd::Reg8("al"), src: Opnd::Imm(300) }), Item::Ins(Ins::Mov { w: 8, dst: Opnd::Reg8("bl"), src: Opnd::Imm(400) })],
+        // undefined labels reached through macros (positions inside an expansion are relative to the expanded text)
+        vec![Item::Raw("macro skipto(l) -> jmp l <-".into()), Item::Label("start".into()),
+             Item::Use { text: "skipto(first_missing)".into(), expands: vec![Ins::Jcc { mn: "jmp", label: "first_missing".into(), target: 0 }] },
+             Item::Use { text: "skipto(second_missing)".into(), expands: vec![Ins::Jcc { mn: "jmp", label: "second_missing".into(), target: 0 }] },
+             Item::Use { text: "skipto(third_missing)".into(), expands: vec![Ins::Jcc { mn: "jmp", label: "third_missing".into(), target: 0 }] }],
+        vec![Item::Raw("macro two(a, b) -> jz a jnz b <-".into()), Item::Label("start".into()),
+             Item::Use { text: "two(qq_1, zz_2)".into(), expands: vec![Ins::Jcc { mn: "jz", label: "qq_1".into(), target: 0 }, Ins::Jcc { mn: "jnz", label: "zz_2".into(), target: 0 }] },
+             Item::Ins(Ins::Jcc { mn: "jmp", label: "aa_3".into(), target: 0 })],
     ];
     for (i, items) in multi.iter().enumerate() {
         for r in 0..(if thorough { 4 } else { 2 }) {
@@ -839,6 +865,11 @@ fn pathological(rng: &mut Rng, thorough: bool) -> Vec<(String, Vec<u8>)> {
         ("syntax-error-after-non-ascii-line".into(), "start:\nmov ax, 1 ; \u{e9}\u{e9}\u{e9}\n\u{20ac}\u{20ac}\u{20ac} mov bx 5\n".as_bytes().to_vec()),
         ("undefined-label-after-non-ascii".into(), "start:\n\u{e9}\u{e9}: nop\njmp nowhere\n".as_bytes().to_vec()),
         ("non-ascii-then-stepping".into(), "start:\nmov ax, 1\nprint reg ; \u{20ac}\nint 3\n".as_bytes().to_vec()),
+        ("macro-direct-recursion".into(), b"macro a(r) -> inc r a(r) <-\nstart:\na(ax)\n".to_vec()),
+        ("macro-mutual-recursion".into(), b"macro a(r) -> b(r) <-\nmacro b(r) -> dec r a(r) <-\nstart:\na(ax)\n".to_vec()),
+        ("macro-recursion-after-sibling".into(), b"macro leaf(r) -> inc r <-\nmacro again(r) -> leaf(r) again(r) <-\nstart:\nagain(ax)\n".to_vec()),
+        ("macro-recursion-after-two-siblings".into(), b"macro l1(r) -> inc r <-\nmacro l2(r) -> l1(r) dec r <-\nmacro m0(r) -> l2(r) l1(r) m2(r) <-\nmacro m2(r) -> l1(r) m0(r) <-\ndef f {\nm0(bx)\n}\nstart:\ncall f\n".to_vec()),
+        ("macro-recursion-by-name".into(), b"macro app(k, r) -> k (k, r) <-\nstart:\napp(app, ax)\n".to_vec()),
         ("invalid-utf8".into(), b"start:\nmov ax, 1\n\xff\xfe\n".to_vec()),
         ("nul-bytes".into(), b"start:\n\0\0mov ax, 1\n".to_vec()),
         ("unbalanced-quote".into(), b"x: db \"abc\nstart:\nhlt\n".to_vec()),
